@@ -19,7 +19,7 @@ pub const PROPS: [&str; 20] = [
 fn base_assumptions() -> Vec<String> {
     vec![
         "every transition is an execution of the code in /repo built with --cfg tikv_raft_rs_verif (hooks are additive: derive(Clone), read-only views, deterministic election timeout)".into(),
-        "the simulated application follows the documented Ready/advance contract (DESIGN.md §2.4): writes snapshot, entries, hard state in that order; persisted messages only after fsync and notification; apply only what was handed out".into(),
+        "the simulated application follows the documented Ready/advance contract (DESIGN.md §2.4): writes snapshot, entries, hard state in that order; persisted messages only after fsync (async mode: notify-then-send and, in the -loose scenarios, send-then-notify); apply only what was handed out; fsync skipped only when must_sync is false (the -nosync scenarios)".into(),
         "a crash keeps a prefix of the unsynced write sequence (write-ahead-log assumption)".into(),
         "bounds: the scenario caps listed per run (terms, log length, per-kind fault and client budgets); payloads are opaque unique tags".into(),
         "election timeouts are the deterministic function min + (id + term + salt) % (max - min) of hook H3 (constant when max = min + 1)".into(),
@@ -50,7 +50,7 @@ pub fn plan_for(prop: &str, tier: &str) -> Plan {
             p.scenarios = if q {
                 sc(&[("elect", 1), ("elect-pv", 1), ("elect-cq", 1), ("elect-pvcq", 1), ("elect-stale", 0), ("stale", 1), ("member", 1), ("crash3", 1), ("xfer-abort", 0), ("elect", 3)])
             } else {
-                sc(&[("elect", 1), ("elect-pv", 1), ("elect-cq", 1), ("elect-pvcq", 1), ("elect-stale", 0), ("stale", 1), ("member", 1), ("crash3", 1), ("xfer-abort", 0), ("elect", 3), ("elect-prio", 3), ("elect-pvcq", 3), ("xfer", 1), ("stale", 2), ("member", 2), ("elect", 2), ("elect", 4)])
+                sc(&[("elect", 1), ("elect-pv", 1), ("elect-cq", 1), ("elect-pvcq", 1), ("elect-stale", 0), ("stale", 1), ("member", 1), ("crash3", 1), ("xfer-abort", 0), ("elect", 3), ("elect-prio", 3), ("elect-pvcq", 3), ("xfer", 1), ("stale", 2), ("member-joint", 2), ("member", 2), ("elect", 2), ("elect", 4)])
             };
             p.required_stats = vec![Stat::LeadersSeen, Stat::VotesGranted];
             p.explanation = "explicit-state exploration; ghost leader_of[term] checked after every API call on every node, across crashes and restarts (crash cuts between receiving a vote request and persisting the vote included)".into();
